@@ -167,9 +167,13 @@ type wPred struct {
 	Op   string // eq gt gte in like null
 	Vals []int
 	Pat  string
+	Strs []string // Op in on the text column: the non-NULL elements
+	Null bool     // Op in: the list holds a NULL element (untyped nil, nil pointer, invalid sql.Null*)
 }
 
-func (p wPred) key() string { return fmt.Sprintf("%s|%s|%v|%s", p.Col, p.Op, p.Vals, p.Pat) }
+func (p wPred) key() string {
+	return fmt.Sprintf("%s|%s|%v|%s|%q|%v", p.Col, p.Op, p.Vals, p.Pat, p.Strs, p.Null)
+}
 
 type wWorld struct {
 	preds []wPred
@@ -214,6 +218,18 @@ func (p wPred) eval(r wRow) v3 {
 		if r.S == nil {
 			return vU
 		}
+		if p.Op == "in" {
+			// x IN (e1 … en): TRUE on a match, otherwise UNKNOWN when a NULL element is present, otherwise FALSE
+			for _, v := range p.Strs {
+				if v == *r.S {
+					return vT
+				}
+			}
+			if p.Null {
+				return vU
+			}
+			return vF
+		}
 		return b2v(likeMatch(*r.S, p.Pat))
 	}
 	var x *int
@@ -244,6 +260,9 @@ func (p wPred) eval(r wRow) v3 {
 			if v == *x {
 				return vT
 			}
+		}
+		if p.Null {
+			return vU // a NULL element: no match is UNKNOWN, never FALSE (so NOT IN never selects)
 		}
 		return vF
 	}
@@ -377,6 +396,27 @@ func (g *rawGen) leaf() wItem {
 		return wItem{C: wCore{Kind: "atom", ID: g.w.id(wPred{Col: col, Op: "null"}), Pol: false, Text: col + " IS NOT NULL"}}
 	case 5:
 		v2 := (v + 1 + rng.Intn(2)) % 4
+		if g.mode != 0 && rng.Intn(2) == 0 {
+			// the slice zoo (c02_slices.go): NULL / pointer / sql.Null* / foreign-typed / duplicate elements, any container type
+			lc := col
+			if rng.Intn(4) == 0 {
+				lc = "s"
+			}
+			l := genInList(rng, lc, "raw")
+			id := g.w.id(l.Pred)
+			if g.mode == 1 {
+				g.args = append(g.args, l.Val)
+				txt := lc + " IN (?)"
+				if rng.Intn(2) == 0 {
+					txt = lc + " IN ?"
+				}
+				return wItem{C: wCore{Kind: "atom", ID: id, Pol: true, Text: txt}}
+			}
+			g.nname++
+			n := fmt.Sprintf("p%d", g.nname)
+			g.args = append(g.args, sql.Named(n, l.Val))
+			return wItem{C: wCore{Kind: "atom", ID: id, Pol: true, Text: lc + " IN @" + n}}
+		}
 		if g.mode == 0 {
 			return wItem{C: wCore{Kind: "atom", ID: g.w.id(wPred{Col: col, Op: "in", Vals: []int{v, v2}}), Pol: true, Text: fmt.Sprintf("%s IN (%d,%d)", col, v, v2)}}
 		}
@@ -619,9 +659,17 @@ func genAtom(rng *rand.Rand, w *wWorld, table string, colStyle int) *wAtom {
 	case 6:
 		return mk("neq", "nil", wPred{Col: col, Op: "null"}, clause.Neq{Column: column, Value: nil})
 	case 7:
+		if rng.Intn(2) == 0 {
+			l := genInList(rng, col, "eq")
+			return mk("eq", l.N, l.Pred, clause.Eq{Column: column, Value: l.Val})
+		}
 		v2 := (v + 1 + rng.Intn(2)) % 4
 		return mk("eq", 2, wPred{Col: col, Op: "in", Vals: []int{v, v2}}, clause.Eq{Column: column, Value: []int{v, v2}})
 	case 8:
+		if rng.Intn(2) == 0 {
+			l := genInList(rng, col, "in")
+			return mk("in", l.N, l.Pred, clause.IN{Column: column, Values: l.Elems})
+		}
 		v2 := (v + 1 + rng.Intn(2)) % 4
 		return mk("in", 2, wPred{Col: col, Op: "in", Vals: []int{v, v2}}, clause.IN{Column: column, Values: []interface{}{v, v2}})
 	case 9:
@@ -900,6 +948,31 @@ func genForm(rng *rand.Rand, w *wWorld, depth int, cfg chainGenCfg) *wForm {
 	if cfg.allowEmpty && rng.Intn(10) == 0 {
 		return genEmptyForm(rng, cfg.soft)
 	}
+	if !cfg.noStruct && cfg.table != "" && rng.Intn(12) == 0 {
+		// primary-key value(s) given as the condition itself: Where(3) / Where("3") / Where([]int{1, 3}) / Not(ids) / Or(ids)
+		// (and, as the last unit, the inline form First/Find/Delete(value, ids)): ONE IN unit on the primary column
+		qcol := "`" + cfg.table + "`.`id`"
+		if rng.Intn(3) == 0 {
+			v := 1 + rng.Intn(12)
+			var q interface{} = v
+			d := fmt.Sprint(v)
+			switch rng.Intn(4) {
+			case 0:
+				q, d = fmt.Sprint(v), fmt.Sprintf("%q", fmt.Sprint(v))
+			case 1:
+				q, d = uint(v), fmt.Sprintf("uint(%d)", v)
+			case 2:
+				q, d = int64(v), fmt.Sprintf("int64(%d)", v)
+			}
+			a := &wAtom{Col: qcol, Kind: "in", Val: 1, ID: w.id(wPred{Col: "id", Op: "in", Vals: []int{v}})}
+			return &wForm{Kind: "col", Atoms: []*wAtom{a}, GoDesc: "pk " + d,
+				Go: func(*gorm.DB) (interface{}, []interface{}) { return q, nil }}
+		}
+		l := genInList(rng, "id", "pk")
+		a := &wAtom{Col: qcol, Kind: "in", Val: l.N, ID: w.id(l.Pred)}
+		return &wForm{Kind: "col", Atoms: []*wAtom{a}, GoDesc: "pk " + l.Desc,
+			Go: func(*gorm.DB) (interface{}, []interface{}) { return l.Val, nil }}
+	}
 	switch {
 	case k < 6: // raw string (literal / ? / @name)
 		r := genRaw(rng, w, cfg.allowWeird)
@@ -919,6 +992,19 @@ func genForm(rng *rand.Rand, w *wWorld, depth int, cfg chainGenCfg) *wForm {
 			a := &wAtom{Col: "`" + col + "`", Kind: "eq", Val: 2, ID: w.id(wPred{Col: col, Op: "in", Vals: []int{v, v2}})}
 			return &wForm{Kind: "col", Atoms: []*wAtom{a}, GoDesc: fmt.Sprintf("%q, []int{%d,%d}", col, v, v2),
 				Go: func(*gorm.DB) (interface{}, []interface{}) { return col, []interface{}{[]int{v, v2}} }}
+		case 2:
+			// ("col", slice) with the slice zoo; ("col", nil-ish) = IS NULL
+			lc := []string{"a", "b", "s"}[rng.Intn(3)]
+			if rng.Intn(4) == 0 {
+				nv, nd := genNilish(rng, lc)
+				a := &wAtom{Col: "`" + lc + "`", Kind: "eq", Val: "nil", ID: w.id(wPred{Col: lc, Op: "null"})}
+				return &wForm{Kind: "col", Atoms: []*wAtom{a}, GoDesc: fmt.Sprintf("%q, %s", lc, nd),
+					Go: func(*gorm.DB) (interface{}, []interface{}) { return lc, []interface{}{nv} }}
+			}
+			l := genInList(rng, lc, "eq")
+			a := &wAtom{Col: "`" + lc + "`", Kind: "eq", Val: l.N, ID: w.id(l.Pred)}
+			return &wForm{Kind: "col", Atoms: []*wAtom{a}, GoDesc: fmt.Sprintf("%q, %s", lc, l.Desc),
+				Go: func(*gorm.DB) (interface{}, []interface{}) { return lc, []interface{}{l.Val} }}
 		}
 		a := &wAtom{Col: "`" + col + "`", Kind: "eq", Val: "scalar", ID: w.id(wPred{Col: col, Op: "eq", Vals: []int{v}})}
 		return &wForm{Kind: "col", Atoms: []*wAtom{a}, GoDesc: fmt.Sprintf("%q, %d", col, v),
@@ -926,6 +1012,7 @@ func genForm(rng *rand.Rand, w *wWorld, depth int, cfg chainGenCfg) *wForm {
 	case k < 11: // map[string]interface{}
 		m := map[string]interface{}{}
 		var atoms []*wAtom
+		var descs []string
 		cols := []string{"a", "b", "s"}
 		rng.Shuffle(len(cols), func(i, j int) { cols[i], cols[j] = cols[j], cols[i] })
 		n := 1 + rng.Intn(3)
@@ -934,31 +1021,49 @@ func genForm(rng *rand.Rand, w *wWorld, depth int, cfg chainGenCfg) *wForm {
 		for _, col := range cols {
 			q := "`" + col + "`"
 			if col == "s" {
-				if rng.Intn(3) == 0 {
-					m[col] = nil
+				if k := rng.Intn(4); k == 0 {
+					nv, nd := genNilish(rng, col)
+					m[col] = nv
+					descs = append(descs, col+":"+nd)
 					atoms = append(atoms, &wAtom{Col: q, Kind: "eq", Val: "nil", ID: w.id(wPred{Col: "s", Op: "null"})})
+				} else if k == 1 {
+					l := genInList(rng, col, "map")
+					m[col] = l.Val
+					descs = append(descs, col+":"+l.Desc)
+					atoms = append(atoms, &wAtom{Col: q, Kind: "in", Val: l.N, ID: w.id(l.Pred)})
 				} else {
 					s := wStrings[rng.Intn(len(wStrings))]
 					m[col] = s
+					descs = append(descs, fmt.Sprintf("%s:%q", col, s))
 					atoms = append(atoms, &wAtom{Col: q, Kind: "eq", Val: "scalar", ID: w.id(wPred{Col: "s", Op: "like", Pat: s})})
 				}
 				continue
 			}
 			v := rng.Intn(4)
-			switch rng.Intn(4) {
+			switch rng.Intn(5) {
 			case 0:
-				m[col] = nil
+				nv, nd := genNilish(rng, col)
+				m[col] = nv
+				descs = append(descs, col+":"+nd)
 				atoms = append(atoms, &wAtom{Col: q, Kind: "eq", Val: "nil", ID: w.id(wPred{Col: col, Op: "null"})})
 			case 1:
 				v2 := (v + 1 + rng.Intn(2)) % 4
 				m[col] = []int{v, v2}
+				descs = append(descs, fmt.Sprintf("%s:[]int{%d,%d}", col, v, v2))
 				atoms = append(atoms, &wAtom{Col: q, Kind: "in", Val: 2, ID: w.id(wPred{Col: col, Op: "in", Vals: []int{v, v2}})})
+			case 2:
+				// the slice zoo: NULL / pointer / sql.Null* / foreign-typed / duplicate elements, any container type
+				l := genInList(rng, col, "map")
+				m[col] = l.Val
+				descs = append(descs, col+":"+l.Desc)
+				atoms = append(atoms, &wAtom{Col: q, Kind: "in", Val: l.N, ID: w.id(l.Pred)})
 			default:
 				m[col] = v
+				descs = append(descs, fmt.Sprintf("%s:%d", col, v))
 				atoms = append(atoms, &wAtom{Col: q, Kind: "eq", Val: "scalar", ID: w.id(wPred{Col: col, Op: "eq", Vals: []int{v}})})
 			}
 		}
-		return &wForm{Kind: "fields", Atoms: atoms, GoDesc: fmt.Sprintf("map%v", m),
+		return &wForm{Kind: "fields", Atoms: atoms, GoDesc: "map{" + strings.Join(descs, " ") + "}",
 			Go: func(*gorm.DB) (interface{}, []interface{}) { return m, nil }}
 	case k < 14 && !cfg.noStruct: // struct (zero fields add nothing)
 		tbl := tableOf(cfg.soft)
@@ -984,6 +1089,12 @@ func genForm(rng *rand.Rand, w *wWorld, depth int, cfg chainGenCfg) *wForm {
 			Go: func(*gorm.DB) (interface{}, []interface{}) { return q, nil }}
 	case k < 17 || depth <= 0: // clause.Expression
 		e := genEx(rng, w, 2, cfg.exGenCfg)
+		if !cfg.leadingOr && e.Kind == "and" && len(e.Kids) > 1 && e.Kids[0].isSingleOr() {
+			// an And list that STARTS with a single-member Or is the expression-level spelling of a chain whose first
+			// condition call is Or (when it is the statement's only unit Where.Build swaps that Or behind the next member
+			// and OR-joins it): outside the property's quantifier ("first condition call is not Or"), judged by C08 only
+			e.Kids[0] = e.Kids[0].Kids[0]
+		}
 		return &wForm{Kind: "expr", Ex: e, GoDesc: "expr " + canon(e.json()),
 			Go: func(*gorm.DB) (interface{}, []interface{}) { return e.real(), nil }}
 	default: // group: db.Where(db.Where(..).Or(..))
@@ -1243,4 +1354,3 @@ func (c semCtx) chain(ch *wChain) (v3, bool) {
 	}
 	return or3(acc, cur), true
 }
-
